@@ -487,6 +487,19 @@ inline void oracle_C20(An &a, vf::Stats &st) {
     if (a.fr.accept && !a.cr.generated_correctly) { bool msg = false; for (auto &e : a.cr.errors) if (e.message.find("out of range") != std::string::npos) msg = true;
       if (msg) { st.violation(a.key(), "range error although every literal is below 2^31-1", a.cj); return; } }
   }
+  if (a.scan_ok && a.macros) {
+    // macro headers: a priority (or an insertion index) that does not fit the word must be rejected with a range error
+    for (size_t i = 0; i + 1 < a.so.toks.size(); i++) {
+      bool prio = a.so.toks[i].k == ref::PRIORITY && a.so.toks[i + 1].k == ref::INT && ref::lit_value(a.so.toks[i + 1].text) >= ref::LIT_LIMIT;
+      bool ins = a.so.toks[i].k == ref::INSERTION && ref::lit_value(a.so.toks[i].text.substr(1)) >= ref::LIT_LIMIT;
+      if (!prio && !ins) continue;
+      st.add("macro_header_number_out_of_range"); st.nontrivial.insert(vf::fnv(a.cj));
+      bool msg = false; for (auto &e : a.cr.errors) if (e.message.find("out of range") != std::string::npos) msg = true;
+      std::string which = prio ? "priority " + a.so.toks[i + 1].text : "insertion index " + a.so.toks[i].text;
+      if (a.cr.generated_correctly) { st.violation(a.key(), which + " does not fit the word but the source is accepted", a.cj); return; }
+      if (!msg) { st.violation(a.key(), which + " rejected without a range error", a.cj); return; }
+    }
+  }
   if (!a.cr.generated_correctly) { st.add("not_compiled"); return; }
   // every accepted literal must be stored exactly
   if (a.scan_ok && !a.macros) for (auto &t : a.fr.toks) if (t.k == ref::INT) {
